@@ -37,6 +37,7 @@ pub fn det_families() -> Vec<&'static str> {
 }
 
 pub mod live_park;
+pub mod live_join;
 
 /// a live-mode scenario (real runtime, real time)
 pub struct LiveBuilt {
@@ -51,6 +52,7 @@ pub struct LiveBuilt {
 pub fn build_live(family: &str, rng: &mut Rng, tier: u32) -> Option<LiveBuilt> {
     match family {
         "park" => Some(live_park::build(rng, tier)),
+        "join" => Some(live_join::build(rng, tier)),
         _ => None,
     }
 }
